@@ -69,7 +69,8 @@ func init() {
 		name := concStr(w, args[0], "vrt name")
 		n, ok := args[1].(int64)
 		if !ok {
-			panic(w.unsupported("vrt.Bytes with symbolic length"))
+			// a symbolic length is enumerated (forks), lengths above 64 are not supported
+			n = int64(w.concretizeIndex(args[1], 65))
 		}
 		nm := w.uniqueName(name)
 		b := make(BStr, n)
